@@ -257,6 +257,17 @@ def write_evidence(ctx, gate, coverage, assumptions=None):
 _SEQUENTIAL_ESCALATION = {"C04", "C17", "C18", "C19"}
 
 
+_ESC_DIR = []
+
+
+def _esc_dir():
+    """outputs of the extra runs live outside work/ (some checks clean their work directory)"""
+    if not _ESC_DIR:
+        import tempfile
+        _ESC_DIR.append(tempfile.mkdtemp(prefix="cola_verif_esc_"))
+    return _ESC_DIR[0]
+
+
 def start_escalation(ctx):
     """When a function this property depends on has changed (source fingerprint), the quick tier also runs the same check
     with two more seeds (the seeds validated on the unchanged tree are 0..3).  Extra runs write no evidence; their
@@ -272,7 +283,7 @@ def start_escalation(ctx):
         if ctx.prop in _SEQUENTIAL_ESCALATION:
             jobs.append(("deferred", s, cmd, e))
         else:
-            out = open(os.path.join(WORK, f"escalation_{ctx.prop}_{s}.out"), "w")
+            out = open(os.path.join(_esc_dir(), f"escalation_{ctx.prop}_{s}.out"), "w")
             jobs.append(("running", s, subprocess.Popen(cmd, cwd=ROOT, env=e, stdout=out, stderr=subprocess.STDOUT), out))
     return jobs
 
@@ -283,7 +294,7 @@ def join_escalation(ctx, jobs):
     summary = []
     for job in jobs:
         s = job[1]
-        path = os.path.join(WORK, f"escalation_{ctx.prop}_{s}.out")
+        path = os.path.join(_esc_dir(), f"escalation_{ctx.prop}_{s}.out")
         try:
             if job[0] == "deferred":
                 with open(path, "w") as out:
@@ -295,7 +306,12 @@ def join_escalation(ctx, jobs):
             summary.append({"seed": s, "error": repr(e)[:200]})
             continue
         viol = 0
-        for ln in open(path, errors="replace"):
+        try:
+            lines = open(path, errors="replace").readlines()
+        except OSError as e:  # the output of an extra sample is gone: not a verdict
+            summary.append({"seed": s, "rc": rc, "error": repr(e)[:200]})
+            continue
+        for ln in lines:
             if ln.startswith("VIOLATION "):
                 viol += 1
                 print(ln.rstrip() + f"   [escalation seed {s}]", flush=True)
@@ -308,6 +324,11 @@ def join_escalation(ctx, jobs):
                     ctx.known.append(key)
                     print(ln.rstrip(), flush=True)
         summary.append({"seed": s, "rc": rc, "violations": viol})
+    try:
+        import shutil
+        shutil.rmtree(_esc_dir(), ignore_errors=True)
+    except Exception:
+        pass
     # the evidence of the main run is already written: append the escalation summary to it
     p = os.path.join(EVIDENCE, f"{ctx.prop}.json")
     try:
